@@ -27,6 +27,7 @@ from .values import (
     PSet,
     Ref,
     SDict,
+    SSet,
     TypeRef,
     fresh,
     fresh_name,
@@ -463,6 +464,8 @@ def values_equal(ex, st, a, b):
     if isinstance(a, Opaque) and isinstance(b, Opaque):
         if a.kind != b.kind:
             return False
+        if a.t.eq(b.t):
+            return True
         return a.t == b.t
     if isinstance(a, Opaque) or isinstance(b, Opaque):
         return False
@@ -643,6 +646,13 @@ def contains(ex, st, container, item):
     elif isinstance(container, SDict):
         k = dict_key(container, item)
         yield st, (False if k is None else _wrap_bool(container.has[k]))
+    elif isinstance(container, SSet):
+        try:
+            k = lift(item, container.esort)
+        except TypeError:
+            yield st, False
+            return
+        yield st, _wrap_bool(container.has[k])
     elif natural_sort(container) == "str":
         for st1, it in ex.narrow(st, item):
             if natural_sort(it) != "str":
@@ -865,7 +875,7 @@ def getattr_(ex, st, v, attr):
     if isinstance(o, (PDict, SDict, Kwargs)):
         yield st, BuiltinRef("dict." + attr, bound=v)
         return
-    if isinstance(o, PSet):
+    if isinstance(o, (PSet, SSet)):
         yield st, BuiltinRef("set." + attr, bound=v)
         return
     if isinstance(v, tuple):
@@ -873,6 +883,9 @@ def getattr_(ex, st, v, attr):
         return
     if isinstance(v, SSeq):
         yield st, BuiltinRef("seq." + attr, bound=v)
+        return
+    if type(v).__name__ == "RegexVal":
+        yield st, BuiltinRef("regex." + attr, bound=v)
         return
     if isinstance(v, Opaque):
         yield from opaque_attr(ex, st, v, attr)
@@ -1045,7 +1058,7 @@ def getitem(ex, st, ref, idx):
             for st2, ok in ex.branch(st1, _wrap_bool(z3.And(it >= -n, it < n))):
                 if ok:
                     real = it if (isinstance(i, int) and i >= 0) else z3.If(it < 0, n + it, it)
-                    yield st2, SV("str", z3.SubString(t, real, 1))
+                    yield st2, SV("str", z3.SubString(t, real, 1), char=True)
                 else:
                     yield ex.raise_(st2, "IndexError")
         return
